@@ -60,6 +60,18 @@ var specs = map[string]spec{
 		},
 		Assumptions: commonAssumptions, Plain: true, QuickStride: 1, ThoroughStride: 2, QuickDeadline: 420, ThoroughDeadline: 3000,
 	},
+	"C06": {
+		LevelText: "bounded exhaustive enumeration of deliberately ill-typed programs (every operator x ordered pair of value classes, every function and directive x arity 0..4 x argument classes, range steps, missing $ij, unset optionals, failures 1-3 calls deep, duplicate template names in every file order), EvalExpr on every generated expression, ParseGlobals on every pair of line forms and every JSON data shape of depth <=2; each run under deterministic fuel with a panic observer",
+		LevelNote: "the oracle is the invariant returns / no panic / result xor error; fuel limit 1e6 ticks per render of a tiny program (observed maximum is reported)",
+		Technique: "bounded exhaustive exploration with invariant checking (fuel-bounded executions, panic observer)",
+		Level:     "model_checking",
+		Rule:      "a state is a distinct program/data/input; a transition is one compile+render, EvalExpr or ParseGlobals call; non-trivial = the program compiled (so the render ran) or the expression parsed",
+		Bounds: map[string]string{
+			"quick":    "24 value classes; 14 operators; 18 function names x arity 0-4; 12 directive names x arity 0-3; range over {-3,0,2,10}^2 x 5 steps; 8 failing prints x depth 1-3; 12 file orders; 34^2 globals inputs; 8+ JSON shapes squared",
+			"thorough": "same space (already exhaustive for the alphabet)",
+		},
+		Assumptions: commonAssumptions, Plain: true, QuickStride: 1, ThoroughStride: 1, QuickDeadline: 420, ThoroughDeadline: 3000,
+	},
 	"C05": {
 		LevelText: "bounded exhaustive exploration of the real parser: every input of the stated small scopes is parsed under a controlled scheduler with a deterministic linear fuel bound (no wall clock), and small inputs under every parser/scanner interleaving up to 2 preemptions; termination, no panic, no deadlock and tree-xor-error are checked on every execution and every case is replayed on the uninstrumented build",
 		LevelNote: "assumes the bounded scopes are representative (small-scope hypothesis) and that the overlay instrumentation preserves behaviour (cross-checked case by case against the plain build)",
